@@ -56,7 +56,7 @@ fn expectation(net: &Net, text: &str, extended: bool, ctx: &LabelToSetMap) -> (E
     (Expect::Ok, "valid")
 }
 
-fn check(case: &SemCase, net: &Net) -> Verdict {
+pub fn check(case: &SemCase, net: &Net) -> Verdict {
     let g = &net.graph;
     let ctx = symbolic_context(net, &case.context);
     let texts: Vec<&str> = case.formulas.iter().map(|s| s.as_str()).collect();
@@ -264,6 +264,32 @@ impl Property for C14 {
             extra: json!({"injected": raw.inject.is_some(), "mutated": !raw.muts.is_empty()}),
         };
         check(&case, &net)
+    }
+    fn extra_stages(&self, tier: Tier, seed: u64, stats: &mut Stats) -> Option<Failure> {
+        if tier != Tier::Thorough {
+            return None;
+        }
+        crate::fuzzstage::run_fuzz_stage("api_nopanic", 150_000, 8, seed, stats, &|bytes| {
+            let case = crate::fuzz_api::decode_api_case(bytes)?;
+            let class = match crate::fuzz_api::api_nopanic_verdict(&case) {
+                Ok(()) => return None,
+                Err((class, _)) => class,
+            };
+            let fails = |t: &str| {
+                let mut c = case.clone();
+                c.formulas = vec![t.to_string()];
+                matches!(crate::fuzz_api::api_nopanic_verdict(&c), Err((cl, _)) if cl == class)
+            };
+            let min = crate::fuzzstage::ddmin(&case.formulas[0], &fails);
+            let mut c = case.clone();
+            c.formulas = vec![min];
+            let net = build_net(&c).ok()?;
+            c.context = normalise_context(&net, &c.context);
+            match check(&c, &net) {
+                Verdict::Fail(f) => Some(f),
+                _ => None,
+            }
+        })
     }
     fn replay(&self, case: &Value) -> Verdict {
         let case = match SemCase::from_json(case) {
